@@ -1,5 +1,7 @@
 """C22 — different topics never share storage or metadata keys."""
 import json
+import os
+import subprocess
 
 from checks import lib
 
@@ -10,17 +12,121 @@ OBLIGATIONS = [
     "KafVerif.C22.keys_injective",
     "KafVerif.C22.topics_disjoint",
     "KafVerif.C22.old_rule_aliases",
+    # the singleflight key of getPartitionLog (one shared *PartitionLog per key)
+    "KafVerif.C22.loginit_format_injective",
+    "KafVerif.C22.loginit_src_injective",     # about the key expression REGENERATED from cmd/broker/main.go (Gen/C22LogInit.lean)
+    "KafVerif.C22.loginit_nosep_collides",
 ]
-BUILDS = {"h": ("root", "./cmd/verif_c22", ["C22"])}
-TECHNIQUE = "Lean 4 proof (injectivity of every key constructor on accepted names, for all namespaces/partitions/offsets) + correspondence of the real CreateTopic and key constructors with the model + direct collision monitor on the real keys"
+BUILDS = {"h": ("root", "./cmd/broker", ["C22"])}      # one binary: harness inside package main (VERIF_HARNESS=C22)
+TECHNIQUE = ("Lean 4 proof (injectivity of every key constructor on accepted names, for all namespaces/partitions/offsets) + correspondence of "
+             "the real CreateTopic and key constructors with the model + direct collision monitor on the real keys + go/ast-regenerated key "
+             "expression of getPartitionLog's singleflight group with a Lean obligation + gated concurrent-first-produce scenarios through the real handler")
 LEVEL_TEXT = ("keys_injective / topics_disjoint proved at full strength for every pair of accepted names, every namespace string, "
-              "partition and base offset; path.Clean/path.Join are modelled segment-wise and diffed against Go on generated paths")
-LEVEL_NOTE = "consumer-offset keys (group dimension) belong to C16; recovery.go re-derives the same path.Join keys and is covered by the same lemma but not driven"
+              "partition and base offset; path.Clean/path.Join are modelled segment-wise and diffed against Go on generated paths; the "
+              "singleflight key of getPartitionLog is regenerated from the source on every run and proved injective (loginit_src_injective)")
+LEVEL_NOTE = ("consumer-offset keys (group dimension) belong to C16; recovery.go re-derives the same path.Join keys and is covered by the same lemma "
+              "but not driven; the singleflight key expression is tied statically (extractor, trusted) and by scenarios, not by a line-by-line diff")
 ASSUMPTIONS = [
     "Go strings are modelled as byte lists; fmt %d / %020d as in the model (diffed on boundary values)",
     "keys collide only within one key space (S3 bucket, etcd, cache map, offsets map, lease map); the namespace is the same for both topics (one broker configuration)",
     "topic names reach storage only through CreateTopic / auto-create (snapshot topics published by the operator are constrained by C39)",
+    "static tie of the singleflight key: the go/ast extractor harness/C22/tools/extract (trusted) resolves the first argument of every <recv>.logInit.Do/DoChan call in cmd/broker/main.go through fmt.Sprintf / fmt.Sprint / + / strconv.Itoa and single-definition locals; a key built any other way makes the obligation fail (reported without a failing input unless a scenario finds one)",
+    "scenario schedule: only the first store.NextOffset of the parked (topic, partition) is gated; the second request is released when it has finished or is seen (goroutine stack) waiting inside singleflight.Group.Do for another goroutine's call",
 ]
+TRUSTED = ["harness/C22/tools/extract (go/ast extractor of the singleflight key expression)"]
+
+# ------------------------------------------------------------------ regenerated fact (go/ast): the singleflight key expression
+
+GEN = os.path.join(lib.LEAN, "KafVerif", "Gen", "C22LogInit.lean")
+EXTRACTOR = os.path.join(lib.HARNESS, "C22", "tools", "extract", "main.go")
+
+
+def lean_str(s):
+    return json.dumps(s, ensure_ascii=False)
+
+
+def extractor_binary(ck):
+    """The extractor is a tool of the framework (it does not depend on the tree under test): built once per source version."""
+    import hashlib
+    h = hashlib.sha256(open(EXTRACTOR, "rb").read()).hexdigest()[:16]
+    d = os.path.join(os.environ.get("VERIF_TMP", "/tmp"), "kafverif-tools")
+    os.makedirs(d, exist_ok=True)
+    out = os.path.join(d, "c22extract-" + h)
+    if not os.path.exists(out):
+        tmp = out + ".tmp%d" % os.getpid()
+        p = subprocess.run(["go", "build", "-o", tmp, EXTRACTOR], cwd=ck.scratch, env=lib.go_env(), capture_output=True, text=True)
+        if p.returncode != 0:
+            raise RuntimeError("extractor build failed: " + (p.stdout + p.stderr)[-1500:])
+        os.replace(tmp, out)
+    return out
+
+
+def generate(ck):
+    p = subprocess.run([extractor_binary(ck), lib.REPO], cwd=ck.scratch, capture_output=True, text=True)
+    if p.returncode != 0:
+        raise RuntimeError("extractor failed: " + (p.stdout + p.stderr)[-1500:])
+    sites = [json.loads(l) for l in p.stdout.split("\n") if l.strip()]
+    ck._c22_sites = sites
+    rows, comments = [], []
+    for st in sites:
+        comments.append("-- %s: %s%s" % (st["fn"], st["src"].replace("\n", " "), ("   (not resolved: %s)" % st["other"]) if st.get("other") else ""))
+        ps = []
+        for pc in st.get("pieces") or []:
+            if pc["k"] == "lit":
+                if any(ord(c) > 126 or ord(c) < 32 for c in pc["s"]):
+                    ps = []
+                    break
+                ps.append(".lit (str %s)" % lean_str(pc["s"]))
+            else:
+                ps.append("." + pc["k"])
+        rows.append("  [" + ", ".join(ps) + "]")       # an unresolved expression is the empty (unsafe) format
+    src = ("-- REGENERATED by checks/C22.py (harness/C22/tools/extract, go/ast) from cmd/broker/main.go; do not edit.\n"
+           "-- The key expression of every `<handler>.logInit.Do(key, …)` call (singleflight group of getPartitionLog),\n"
+           "-- as pieces over the function's topic / partition parameters.  Piece: KafVerif/Model/MetaKeys.lean.\n"
+           "import KafVerif.Model.MetaKeys\nnamespace KafVerif.Gen.C22\nopen KafVerif.MetaKeys\n"
+           + "\n".join(comments) + ("\n" if comments else "")
+           + "def logInitSites : List (List Piece) := [\n" + ",\n".join(rows) + "]\nend KafVerif.Gen.C22\n")
+    old = open(GEN).read() if os.path.exists(GEN) else None
+    if old != src:
+        with ck._lake_lock():
+            tmp = GEN + ".tmp%d" % os.getpid()
+            open(tmp, "w").write(src)
+            os.replace(tmp, GEN)
+    ck._c22_gen = src
+    ck.cov.setdefault("distribution", {})["loginit_call_sites_extracted"] = len(sites)
+
+
+def reprove_if_gen_foreign(ck):
+    """lean/KafVerif/Gen/*.lean is shared by every check process; when another run (another $VERIF_REPO) rewrote it
+    between our `generate` and our `lake build`, prove() judged the wrong expression: prove again."""
+    for _ in range(3):
+        src = getattr(ck, "_c22_gen", None)
+        if src is None or (os.path.exists(GEN) and open(GEN).read() == src):
+            return
+        ck.log("regenerated facts were overwritten by a concurrent run; proving again")
+        ck.broken = [b for b in ck.broken if not b["what"].startswith(("lake build", "axiom audit", "forbidden-token", "translator", "leanchecker"))]
+        ck.discharged = 0
+        ck.prove()
+
+
+def static_verdict(ck):
+    """After prove(): says in words what the regenerated key expression is when the obligations no longer build."""
+    reprove_if_gen_foreign(ck)
+    sites = getattr(ck, "_c22_sites", None)
+    if sites is None:
+        return ""
+    ok = len(sites) == 1 and [p["k"] for p in sites[0].get("pieces") or []] == ["topic", "lit", "part"] and \
+        len(sites[0]["pieces"][1]["s"]) == 1 and sites[0]["pieces"][1]["s"] not in LEGAL_ALPHABET
+    if ok:
+        return ""
+    what = "; ".join("%s %s: %s%s" % (s["pos"], s["fn"], s["src"], (" [%s]" % s["other"]) if s.get("other") else "") for s in sites) or "no logInit.Do call found"
+    if any(b["what"].startswith("lake build") for b in ck.broken):
+        ck.broke("static tie (singleflight key of getPartitionLog): KafVerif.C22.loginit_src_injective no longer holds on the key "
+                 "expression regenerated from the current source", what)
+    return what
+
+
+LEGAL_ALPHABET = "abcdefghijklmnopqrstuvwxyzABCDEFGHIJKLMNOPQRSTUVWXYZ0123456789._-"
 
 LEGAL = "abcxyzABCXYZ0189._-"
 BASES = ["orders", "a", "x", "t", "a.b", "A_b-9", "...", "orders.v2", "0", "-", "_", "a-", "x.y.z", "T", "z9"]
@@ -159,10 +265,195 @@ def monitor(meta, out):
     return None
 
 
+# ------------------------------------------------------------------ concurrent first produce (real handler, gated store)
+
+SC_BASES = ["t", "a", "logs", "orders", "x.y", "A_b-", "z9", "0", "-", "_", "a.", "t1", "T", "q-w_e.r"]
+SC_DIGITS = ["1", "2", "9", "10", "12", "7", "30", "123", "01", "0"]
+
+
+def _collide(base, digits, p, sep=""):
+    """(base+sep+digits, p) and (base, int(digits ++ p)): the same string once `sep` and the key's own separator are dropped."""
+    joined = digits + str(p)
+    big = int(joined)
+    if str(big) != joined or big > 1500:
+        return None
+    return (base + sep + digits, p, base, big)
+
+
+def gen_scenarios(rng, quick):
+    """Pairs of (topic, partition) whose keys collide under the plausible wrong key formats; which side is parked,
+    the batch sizes, pre-created vs auto-created topics and the follow-up round all come from the seed."""
+    fams = []
+
+    def pick(f):
+        for _ in range(50):
+            r = f()
+            if r is not None and (r[0], r[1]) != (r[2], r[3]):
+                return r
+        return None
+    b = lambda: rng.choice(SC_BASES)
+    d = lambda: rng.choice(SC_DIGITS)
+    pp = lambda: rng.choice([0, 0, 1, 2, 3, 5, 9, 10, 11])
+    fams.append(("nosep", lambda: _collide(b(), d(), pp())))                                  # "%s%d", fmt.Sprint(topic, partition)
+    fams.append(("nosep-canon", lambda: rng.choice([("t1", 0, "t", 10), ("a1", 1, "a", 11), ("logs2", 3, "logs", 23),
+                                                    ("orders12", 3, "orders", 123), ("x10", 0, "x", 100), ("t1", 23, "t", 123),
+                                                    ("t12", 3, "t1", 23), ("b7", 77, "b", 777)])))
+    fams.append(("sepdrop", lambda: _collide(b(), d(), pp(), rng.choice("-._"))))           # a key builder that strips / maps a legal separator
+    fams.append(("shift", lambda: (lambda base, d1, d2, p: None if (str(int(d2 + str(p))) != d2 + str(p) or str(int(d1 + d2 + str(p))) != d1 + d2 + str(p)
+                                                                      or int(d1 + d2 + str(p)) > 1500)
+                                   else (base + d1, int(d2 + str(p)), base, int(d1 + d2 + str(p))))(b(), rng.choice("123456789"), rng.choice(["1", "2", "5"]), pp())))
+    fams.append(("same-topic", lambda: (lambda base, p, dd: None if (str(int(str(p) + dd)) != str(p) + dd or int(str(p) + dd) > 1500)
+                                        else (base, p, base, int(str(p) + dd)))(b(), pp(), d())))
+    fams.append(("sepname", lambda: (lambda base, sp, p: (base + sp + str(p), 0, base, p))(b(), rng.choice("-._"), pp())))   # "a-1"/0 vs "a"/1
+    fams.append(("illegal", lambda: (lambda base, sp, p: (base + sp + str(p), 0, base, p))(b(), rng.choice("/:"), pp())))   # rejected by validation
+    # same partition, related names: what a key that trims / folds / truncates the topic would merge
+    fams.append(("related", lambda: (lambda base, p, k: (base + [d(), "-" + d(), ".v2", "-dlq", "_", ".", "x"][k], p, base, p) if k < 7
+                                     else None if base.swapcase() == base else (base.swapcase(), p, base, p))(b(), pp(), rng.below(8))))
+    fams.append(("control", lambda: (lambda x, y: None if x == y else (x, pp(), y, pp()))(b(), b())))
+    reps = {"nosep": 8, "nosep-canon": 5, "sepdrop": 4, "shift": 4, "same-topic": 3, "sepname": 3, "related": 5, "illegal": 2, "control": 2}
+    out = []
+    for name, f in fams:
+        for _ in range(reps[name] * (1 if quick else 8)):
+            r = pick(f)
+            if r is None:
+                continue
+            tA, pA, tB, pB = r
+            if rng.chance(1, 2):                      # which side is parked in its initialisation
+                tA, pA, tB, pB = tB, pB, tA, pA
+            mode = "auto" if rng.chance(1, 5) else "exists"
+            if tA == tB:
+                mode = "exists"      # auto-creation sizes the topic for the FIRST request that creates it; the other partition may not exist
+            out.append({"fam": name, "tA": tA, "pA": pA, "nA": rng.range(1, 5), "tB": tB, "pB": pB, "nB": rng.range(1, 5),
+                        "mode": mode, "follow": 1 if rng.chance(1, 2) else 0})
+    # order of the scenarios from the seed as well
+    for i in range(len(out) - 1, 0, -1):
+        j = rng.below(i + 1)
+        out[i], out[j] = out[j], out[i]
+    return out
+
+
+def scen_line(sc):
+    return "first %s %d %d %s %d %d %s %d" % (hx(sc["tA"]), sc["pA"], sc["nA"], hx(sc["tB"]), sc["pB"], sc["nB"], sc["mode"], sc["follow"])
+
+
+def scen_of_line(line):
+    f = line.split()
+    d = lambda x: unhx(x).decode("latin-1")
+    return {"fam": "replay", "tA": d(f[1]), "pA": int(f[2]), "nA": int(f[3]), "tB": d(f[4]), "pB": int(f[5]), "nB": int(f[6]),
+            "mode": f[7], "follow": int(f[8])}
+
+
+def scen_expected(sc):
+    """What the property demands (computed here, not by the harness): every record under its own topic's prefix/offsets."""
+    objs, idx, upd = {}, set(), set()
+    for t, p, n, i1, i2 in ((sc["tA"], sc["pA"], sc["nA"], 1, 3), (sc["tB"], sc["pB"], sc["nB"], 2, 4)):
+        pre = "default/%s/%d/segment-" % (t, p)
+        objs[pre + "%020d.kfs" % 0] = "%d@0+%d" % (i1, n)
+        idx.add(pre + "%020d.index" % 0)
+        upd.add("%s/%d:%d" % (t, p, n - 1))
+        if sc["follow"]:
+            objs[pre + "%020d.kfs" % n] = "%d@%d+1" % (i2, n)
+            idx.add(pre + "%020d.index" % n)
+            upd.add("%s/%d:%d" % (t, p, n))
+    exp = {"a": "0:0", "b": "0:0", "objs": objs, "idx": idx, "upd": upd,
+           "nextA": str(sc["nA"] + sc["follow"]), "nextB": str(sc["nB"] + sc["follow"])}
+    if sc["follow"]:
+        exp["a2"] = "0:%d" % sc["nA"]
+        exp["b2"] = "0:%d" % sc["nB"]
+    return exp
+
+
+def scen_judge(sc, line):
+    """-> (verdict, text): verdict in ok | skipped | violation | broken."""
+    f = line.split()
+    if len(f) < 2 or f[0] != "first":
+        return "broken", "harness answered %r" % line[:200]
+    d = kv(line)
+    if "skipped" in f:
+        return "skipped", d.get("create", "")
+    if "panic" in f:
+        return "broken", "the scenario panicked"
+    exp = scen_expected(sc)
+    objs = {}
+    for o in ([] if d.get("objs", "-") == "-" else d["objs"].split(";")):
+        k, _, desc = o.partition("[")
+        objs[k] = desc.rstrip("]")
+    idx = set() if d.get("idx", "-") == "-" else set(d["idx"].split(";"))
+    upd = set() if d.get("upd", "-") == "-" else set(d["upd"].split(";"))
+    A, B = (sc["tA"], sc["pA"]), (sc["tB"], sc["pB"])
+    own = {"1": A, "3": A, "2": B, "4": B}
+    name = lambda x: "%s/%d" % x
+    # cross-topic evidence first: a batch of one (topic, partition) stored under the prefix of the other
+    for k, desc in sorted(objs.items()):
+        for side in (A, B):
+            if k.startswith("default/%s/%d/" % side):
+                for b in desc.split("."):
+                    bid = b.split("@")[0]
+                    if bid in own and own[bid] != side:
+                        return "violation", ("records produced to %s were stored in S3 object %s of %s (first requests for the two partitions "
+                                             "arrived while %s was still initialising; bwait=%s); objects: %s; next offsets %s=%s %s=%s" % (
+                                                 name(own[bid]), k, name(side), name(A), d.get("bwait"), d.get("objs"), name(A), d.get("nextA"),
+                                                 name(B), d.get("nextB")))
+    if d.get("bwait") == "joined":
+        return "violation", ("the first request for %s joined the in-flight initialisation of %s (one singleflight call, one *PartitionLog for two "
+                             "different partitions): %s" % (name(B), name(A), line[:600]))
+    if "hang" in (d.get("a"), d.get("b"), d.get("a2"), d.get("b2")):
+        return "broken", "a produce request did not return within 10 s: " + line[:400]
+    acked = d.get("a", "").startswith("0:") and d.get("b", "").startswith("0:")
+    diffs = []
+    for key in ("a", "b", "a2", "b2", "nextA", "nextB"):
+        if key in exp and d.get(key) != exp[key]:
+            diffs.append("%s=%s (expected %s)" % (key, d.get(key), exp[key]))
+    if objs != exp["objs"]:
+        diffs.append("segment objects %s (expected %s)" % (sorted(objs.items()), sorted(exp["objs"].items())))
+    if idx != exp["idx"]:
+        diffs.append("index objects %s (expected %s)" % (sorted(idx), sorted(exp["idx"])))
+    if upd != exp["upd"]:
+        diffs.append("UpdateOffsets calls %s (expected %s)" % (sorted(upd), sorted(exp["upd"])))
+    if d.get("park") != "ok":
+        diffs.append("the parked request never reached store.NextOffset")
+    if not diffs:
+        return "ok", d.get("bwait", "")
+    if acked and (objs != exp["objs"] or upd != exp["upd"] or d.get("nextA") != exp["nextA"] or d.get("nextB") != exp["nextB"]):
+        return "violation", "acknowledged records of %s / %s are not (only) under their own S3 prefix / metadata offsets: %s" % (name(A), name(B), "; ".join(diffs))
+    return "broken", "; ".join(diffs)
+
+
+def run_scenarios(ck, binary, scs, tag):
+    """Runs the scenarios through the real handler; returns False after reporting a violation."""
+    lines = [scen_line(sc) for sc in scs]
+    rc, out, err = ck.run_bin(binary, stdin_text="\n".join(lines) + "\n", env={"VERIF_HARNESS": "C22"}, timeout=300)
+    res = out.split("\n")[:-1]
+    if rc != 0 or len(res) != len(lines):
+        ck.broke("scenario harness (cmd/broker, VERIF_HARNESS=C22) did not answer every scenario",
+                 "rc=%s lines=%d/%d %s\nlast: %s" % (rc, len(res), len(lines), err[-800:], res[-1:] and res[-1][:300]))
+        return True
+    ck.cov["traces_validated_against_impl"] += len(lines)
+    good = True
+    broken = []
+    for sc, line, r in zip(scs, lines, res):
+        verdict, text = scen_judge(sc, r)
+        ck.case(line, nontrivial=verdict != "skipped",
+                sample={"op": "first %s/%d (parked) || %s/%d %s" % (sc["tA"], sc["pA"], sc["tB"], sc["pB"], sc["mode"]), "impl": r[:160]}
+                if sc["fam"].startswith("nosep") and verdict == "ok" and len(ck.cov["samples"]) < 12 else None)
+        ck.count("scenario:%s:%s" % (sc["fam"], verdict if verdict != "ok" else "ok-" + text))
+        if verdict == "violation":
+            note = getattr(ck, "_c22_static", "")
+            ck.violation("concurrent-first-produce-crosses-topics", text + ((" [singleflight key in the source: %s]" % note) if note else ""),
+                         {"scenario_ops": [line], "scenario": sc, "expected": "every record under its own topic's S3 prefix and metadata offsets; "
+                          "distinct (topic, partition) never share one initialisation", "actual": r})
+            good = False
+        elif verdict == "broken":
+            broken.append("%s\n  -> %s" % (line, text))
+    if broken and good:
+        ck.broke("concurrent first-produce scenario did not behave as on the reference tree (no cross-topic evidence)", "\n".join(broken[:10]))
+    return good
+
+
 def run_ops(ck, binary, ops, tag, model=True):
     fn = ck.path("ops_%s.txt" % tag)
     open(fn, "w").write("\n".join(ops) + "\n")
-    rc, out, err = ck.run_bin(binary, stdin_path=fn)
+    rc, out, err = ck.run_bin(binary, stdin_path=fn, env={"VERIF_HARNESS": "C22"})
     impl = out.split("\n")[:-1]
     if rc != 0 or len(impl) != len(ops):
         return impl, None, "impl rc=%s lines=%d/%d %s" % (rc, len(impl), len(ops), err[-500:])
@@ -201,10 +492,13 @@ def run(ck):
     if bins is None:
         return
     binary = bins["h"]
+    ck._c22_static = static_verdict(ck)
     ck.cov["rule"] = ("a case = one op line (accept / keys / pair / clean / join) on a generated topic name, namespace, partition and "
-                      "base offset; non-trivial = keys/pair lines whose topic the real CreateTopic accepted, or accept lines it rejected "
-                      "for a reason other than emptiness; distinct = distinct op lines")
+                      "base offset, or one concurrent-first-produce scenario (`first`: two (topic, partition) pairs, one parked in its "
+                      "initialisation) through the real handler; non-trivial = keys/pair lines whose topic the real CreateTopic accepted, "
+                      "accept lines it rejected for a reason other than emptiness, scenarios whose topics were both accepted; distinct = distinct op lines")
     ops, meta = gen_ops(ck.rng.fork(), ck.quick())
+    scs = gen_scenarios(ck.rng.fork(), ck.quick())
     # corpus first: replays of earlier findings are prepended to the generated ops
     import glob, os
     for fn in sorted(glob.glob(os.path.join(lib.REPLAYS, "C22", "*.json"))):
@@ -233,6 +527,12 @@ def run(ck):
         ck.broke("correspondence model/implementation (topic acceptance and key constructors)",
                  "op %r\nimpl : %s\nmodel: %s" % (ops[d], impl[d] if d < len(impl) else None, model[d] if d < len(model) else None))
         hunt(ck, binary)
+    if ck.violations:
+        return
+    # concurrent first produce over colliding name pairs, through the real handler
+    if run_scenarios(ck, bins["h"], scs, "scen") and ck._c22_static and not ck.violations:
+        # the static tie failed but the seeded scenarios found nothing: widen (thorough-size set, implementation only)
+        run_scenarios(ck, bins["h"], gen_scenarios(ck.rng.fork(), False), "scen-hunt")
 
 
 def hunt(ck, binary):
@@ -253,6 +553,25 @@ def replay(ck, path):
     rep = json.load(open(path))
     bins = ck.build_all()
     if bins is None:
+        return
+    ck._c22_static = static_verdict(ck)
+    if "scenario_ops" in rep:
+        lines = rep["scenario_ops"]
+        rc, out, err = ck.run_bin(bins["h"], stdin_text="\n".join(lines) + "\n", env={"VERIF_HARNESS": "C22"}, timeout=120)
+        res = out.split("\n")[:-1]
+        if rc != 0 or len(res) != len(lines):
+            ck.broke("scenario harness did not answer every scenario", "rc=%s %s" % (rc, err[-800:]))
+            return
+        for line, r in zip(lines, res):
+            sc = scen_of_line(line)
+            verdict, text = scen_judge(sc, r)
+            print("  %s/%d (parked) || %s/%d %s follow=%d\n    -> %s\n    => %s %s" % (sc["tA"], sc["pA"], sc["tB"], sc["pB"], sc["mode"], sc["follow"], r, verdict, text))
+            ck.case(line)
+            if verdict == "violation":
+                ck.violation("concurrent-first-produce-crosses-topics", text, {"scenario_ops": [line], "actual": r})
+            elif verdict == "broken":
+                ck.broke("scenario did not behave as on the reference tree", text)
+        ck.cov["distinct_nontrivial"] = max(2, ck.cov["distinct_nontrivial"])
         return
     ops = rep["ops"]
     impl, model, crash = run_ops(ck, bins["h"], ops, "replay")
